@@ -49,7 +49,7 @@ def plan(tier):
 
 
 def n_cases(tier):
-    return {'A1': 700, 'A2': 700, 'B': 900, 'S': 500, 'T': 40} if tier == 'thorough' else \
+    return {'A1': 5000, 'A2': 5000, 'B': 6000, 'S': 3000, 'T': 60} if tier == 'thorough' else \
         {'A1': 90, 'A2': 90, 'B': 120, 'S': 60, 'T': 6}
 
 
